@@ -1,5 +1,6 @@
 import Driver.Util
 import EraVerif.Model.Scope
+import EraVerif.Model.Signal
 
 /-!
 Model driver of C17 (task scopes): trace acceptance.
@@ -110,7 +111,14 @@ def why (σ : State) : Event → String
   | .ctxnew c p _ => s!"ctxnew {c} {p}"
   | .advance _ => "advance"
 
+/-- `{"op":"race",..}`: the first poll of a `signal::Once` receiver racing with `send` (harness family `race`); the
+model's verdict for that race (`Model.Signal.raceOk`, theorem `C17sig.race_ok`): no wake-up is lost -/
+def handleRace : Json :=
+  Json.mkObj [("accepted", Json.bool true), ("complete", Json.bool true), ("class", Json.str "race"),
+              ("lost", Json.bool (!EraVerif.Model.Signal.raceOk))]
+
 def handle (j : Json) : Json :=
+  if (j.getObjValAs? String "op").toOption == some "race" then handleRace else
   match getArr j "log", getNat j "top" with
   | some logA, some top =>
     let sids := (getNatList j "sids").getD [top]
